@@ -116,7 +116,7 @@ CHECKS["C08"] = {
         {"name": "parse", "quick_n": 8000, "thorough_n": 60000,
          "oracles": ["parse-tree", "parse-span", "parse-nonassoc", "parse-accepts-malformed", "parse-rejects-wellformed", "parse-fractional-bp", "parse-huge-bp", "parse-harness", "process-crash"]},
     ],
-    "explanation": "The Pratt parser is modelled in full (grammar tables, nud/led functions, float32 binding powers as bit patterns with IEEE < and BP.Prev defined on the bits, the one-pass list-or-map rule, positions) and tied to parser.Parse by the parse stream: 23 operator tables (incl. fractional and huge powers, twin tables differing only after the decimal point) x random trees rendered with minimal and redundant parentheses x all short token sequences x every operator inside the branches of ?: x mutations; full tree and positions compared; an independent precedence-climbing reference parser in the harness decides 'the tree dictated by the declarations', spans, non-associativity and rejection of malformed input. PROVED over the model (third session; Proofs/ParseYield*, ParseRespects*, ParseComplete*, ParseUngroup*, BPOrder; about 5000 lines): two declarative notions, neither of which runs the parser - Yields (the tree is read off a token range by the ambiguous grammar, nodes and spans built as the code builds them) and Respects (the precedence / associativity / fixity discipline R1-R4 on trees) - and C08.exactly: for every well-formed operator table, parse returns t IF AND ONLY IF t yields the token list and respects the declarations; hence complete, unique (the declarations dictate the tree), required_parens, redundant_parens (deleting a pair of parentheses whose removal keeps Respects makes parse return the same tree without that Group node; (o.f)(x) vs o.f(x) included), yields / respects (soundness, for every table without an end-of-file operator), span_exact and span_nested (every node records exactly the span from its first to its last token; children lie inside, disjoint, in order - for token positions in source order, which C09.lex_ordered provides: lexed_ordered), nonassoc, outcomes; closer_needed / nonneg_prefix_needed show each clause of well-formedness is necessary; wf_builtin: the built-in table (tied to oper.BuiltIn() by GenTie.Parser) is well formed. The parser is now evaluated by the kernel (decide +kernel examples: a + b * c, a ^ b ^ c, (a == b) == c, -a.f(x)[1] ? b : c). Hypothesis kept explicit: operator tokens carry their kind as lexeme (OpLexemes; true of lexed input, decidable, checked in the examples, not derived from the lexer model).",
+    "explanation": "The Pratt parser is modelled in full (grammar tables, nud/led functions, float32 binding powers as bit patterns with IEEE < and BP.Prev defined on the bits, the one-pass list-or-map rule, positions) and tied to parser.Parse by the parse stream: 23 operator tables (incl. fractional and huge powers, twin tables differing only after the decimal point) x random trees rendered with minimal and redundant parentheses x all short token sequences x every operator inside the branches of ?: x mutations; full tree and positions compared; an independent precedence-climbing reference parser in the harness decides 'the tree dictated by the declarations', spans, non-associativity and rejection of malformed input. PROVED over the model (third session; Proofs/ParseYield*, ParseRespects*, ParseComplete*, ParseUngroup*, BPOrder; about 5000 lines): two declarative notions, neither of which runs the parser - Yields (the tree is read off a token range by the ambiguous grammar, nodes and spans built as the code builds them) and Respects (the precedence / associativity / fixity discipline R1-R4 on trees) - and C08.exactly: for every well-formed operator table, parse returns t IF AND ONLY IF t yields the token list and respects the declarations; hence complete, unique (the declarations dictate the tree), required_parens, redundant_parens (deleting a pair of parentheses whose removal keeps Respects makes parse return the same tree without that Group node; (o.f)(x) vs o.f(x) included), yields / respects (soundness, for every table without an end-of-file operator), span_exact and span_nested (every node records exactly the span from its first to its last token; children lie inside, disjoint, in order - for token positions in source order, which C09.lex_ordered provides: lexed_ordered), nonassoc, outcomes; closer_needed / nonneg_prefix_needed show each clause of well-formedness is necessary; wf_builtin: the built-in table (tied to oper.BuiltIn() by GenTie.Parser) is well formed. The parser is now evaluated by the kernel (decide +kernel examples: a + b * c, a ^ b ^ c, (a == b) == c, -a.f(x)[1] ? b : c). From the source text: for lexed input the hypotheses on the tokens (operator tokens carry their kind as lexeme, positions in source order, no end-of-file token) are theorems about the lexer model (lexed_opLexemes, lexed_ordered, lexed_no_eof), so exactly_lexed states the iff with hypotheses on the operator table only (well-formed, no operator named like a literal kind).",
     "assumptions": ["operator tables that redefine built-in tokens ( ( [ { : , <sym> ) are outside the well-formed tables the property is read for (reported as parse-shadowed-builtin, informational)"],
 }
 
